@@ -58,6 +58,7 @@ SEEDS = {
  'C07d': ('C07', 'backmp11 on_exit: substates exited with the short form visit(...) - the recursive mode - instead of visit<active_non_recursive>', 'a machine left while a sub-submachine is active (depth 3) or stop() with an active submachine: the innermost states are exited twice'),
  'C13d': ('C13', 'backmp11 function_pointer_array dispatch: early `if constexpr (!has_transitions::value) return HANDLED_FALSE` ("every cell is empty")', 'opt-in function_pointer_array strategy, an event that is a trigger only inside a submachine: never forwarded (the forwarding cells are exactly the non-null ones)'),
  'C18d': ('C18', 'back dispatch_table init_event_base_case: non-Kleene rows are stored through the converting wrapper convert_event_and_forward (a sliced copy of the event)', 'a derived event taken by the only matching row whose trigger is its base class; observer looks at the dynamic type / derived payload'),
+ 'C16d': ('C16', 'back/back11 serialize_state: a submachine is archived only if its front-end has do_serialize or its history policy is not NoHistory ("reset on entry anyway")', 'nested submachine with NoHistory and no do_serialize, saved while active in a non-initial inner state / with opt-in state data inside'),
  'C13b': ('C13', 'backmp11 favor_runtime_speed needs_forward_transition: no longer looks into sub-submachines (a type computation)', 'three-level hierarchy, event only the innermost machine has rows for, middle machine does not mention it'),
  'C14a': ('C14', 'puml parse_row_right: action length clamped to 0 when the guard is written before the action list', 'a transition line of the form  A -> B : ev [guard] / action'),
  'C14c': ('C14', 'functor Internal<> rows with an action always answer HANDLED_TRUE (instead of get_functor_return_value<Action>)', 'state-local internal row whose action defers (Defer or a deferring sequence): answers TRUE, the back-end re-dispatches the deferred event at once'),
